@@ -220,6 +220,7 @@ def main(run):
                       outside="grids > 8x8, > 9 layers, other profile families, rounding")
     cex = run.pmap(worker, scs)
     kindl.handle_cex(run, PID, cex, replay)
-    pick = [s for s in scs if s["halo"] not in (None, 0.0) and len(s["levels"]) > 2 and s["pid"] == "P2"][:1]
-    pick += [s for s in scs if s["halo"] not in (None, 0.0) and len(s["levels"]) > 1 and s["pid"] != "P2"][:1]
+    cscs = kindl.base_scenarios("quick", 0)
+    pick = [s for s in cscs if s["halo"] not in (None, 0.0) and len(s["levels"]) > 2 and s["pid"] == "P2"][:1]
+    pick += [s for s in cscs if s["halo"] not in (None, 0.0) and len(s["levels"]) > 1 and s["pid"] != "P2"][:1]
     kindl.run_canaries(run, "vf.props.C03:canary_probe", CANARIES, pick)
